@@ -16,8 +16,8 @@ let read_txout t : txout =
 
 let read_in t : pin =
   let kind = next_int t in
-  let nw = if kind = 1 then Some (Drv_tx.read_tx t) else None in
-  let wu = if kind = 2 then Some (read_txout t) else None in
+  let nw = if kind = 1 || kind = 3 then Some (Drv_tx.read_tx t) else None in
+  let wu = if kind = 2 || kind = 3 then Some (read_txout t) else None in
   let sht = next_n t in
   let rs = read_opt t in let ws = read_opt t in let fs = read_opt t in let fw = read_opt t in
   { pi_nwu = nw; pi_wu = wu; pi_sigs = []; pi_sht = sht; pi_redeem = rs; pi_wscript = ws; pi_fsig = fs; pi_fwit = fw }
@@ -59,6 +59,8 @@ type op =
   | OpH | OpF of int | OpM of int | OpFA | OpMA | OpX
   | OpTK of int * byte list
   | OpTS of int * byte list * byte list * byte list
+  | OpAI of byte list * n * n * n * n
+  | OpAW of int * txout
 
 let read_tail t =
   let orc = next_list t (fun t ->
@@ -71,6 +73,9 @@ let read_tail t =
     | "H" -> OpH | "FA" -> OpFA | "MA" -> OpMA | "X" -> OpX
     | "F" -> OpF (next_int t) | "M" -> OpM (next_int t)
     | "TK" -> let k = next_int t in let sg = read_hex t in OpTK (k, sg)
+    | "AI" -> let txid = read_hex t in let idx = next_n t in let sq = next_n t in let hl = next_n t in let tl = next_n t in
+              OpAI (txid, idx, sq, hl, tl)
+    | "AW" -> let k = next_int t in let o = read_txout t in OpAW (k, o)
     | "TS" -> let k = next_int t in let pk = read_hex t in let sg = read_hex t in let lf = read_hex t in OpTS (k, pk, sg, lf)
     | s -> failwith ("op " ^ s)) in
   (orc, ops)
@@ -154,7 +159,11 @@ let cmd_sfe2 t =
   let ins = next_list t (fun t -> let b = read_in t in read_in2 t b) in
   let outs = next_list t read_out2 in
   let (orc, ops) = read_tail t in
-  let prevs = Stdlib.List.map (fun q -> prevout_of q.q_base q.q_index) ins in
+  let nin0 = Stdlib.List.length ins in
+  let nadded = Stdlib.List.length (Stdlib.List.filter (function OpAI _ -> true | _ -> false) ops) in
+  let added k = Stdlib.List.fold_left (fun acc o -> match o with OpAW (k', wu) when k' = k -> Some wu | _ -> acc) None ops in
+  let prevs = Stdlib.List.map (fun q -> prevout_of q.q_base q.q_index) ins
+              @ Stdlib.List.init nadded (fun j -> added (nin0 + j)) in
   let p = ref { g_txversion = txversion; g_fallback = fallback; g_nscalars = nscalars; q_ins = ins; q_outs = outs } in
   let out = ref [] in
   let dump_all () = Stdlib.String.concat ";" (Stdlib.List.map dump_in2 !p.q_ins) in
@@ -169,6 +178,9 @@ let cmd_sfe2 t =
                                   Printf.sprintf "o%d=%s:%s" j s (touched k)
         | OpF k -> let s = step (finalize2 !p (nat_of_int k)) in Printf.sprintf "o%d=%s:%s" j s (touched k)
         | OpM k -> let s = step (maybe_finalize2 !p (nat_of_int k)) in Printf.sprintf "o%d=%s:%s" j s (touched k)
+        | OpAI (txid, idx, sq, hl, tl) -> let s = step (add_input2 !p (new_pin2 txid idx sq hl tl)) in
+                                          Printf.sprintf "o%d=%s:%s" j s (dump_all ())
+        | OpAW (k, o) -> let s = step (add_witness_utxo2 !p (nat_of_int k) o) in Printf.sprintf "o%d=%s:%s" j s (touched k)
         | OpH -> let s = step (hop2_st !p) in Printf.sprintf "o%d=%s:%s" j s (dump_all ())
         | OpFA -> let s = step (finalize_all2 !p) in Printf.sprintf "o%d=%s:%s" j s (dump_all ())
         | OpMA -> let s = step (maybe_finalize_all2 !p) in Printf.sprintf "o%d=%s:%s" j s (dump_all ())
